@@ -29,6 +29,8 @@ UNIV = {
     "H": (5, [(28, 1), (28, 2), (28, 3), (0, 1)]),
     # six home slots + a second remainder: enough elements to cross load factors 1/2 and 85/100 of an 8-slot table (setter instances)
     "I": (5, [(hi, 1) for hi in (0, 4, 8, 16, 24, 28)] + [(28, 2)]),
+    # nine hashes for eight slots: the table can be filled completely and then offered one more
+    "J": (5, [(hi, 1) for hi in (0, 4, 8, 12, 16, 20, 24, 28)] + [(28, 2)]),
 }
 
 
@@ -248,6 +250,11 @@ class Ctx:
             raised = exc
         if raised is not None:
             if exp["err"] and isinstance(raised, self.QFE):
+                # "no added key is ever reported absent": a call the filter rejects must not lose what it holds (the other clauses speak
+                # about calls that did not raise; a merge rejected half-way may legitimately have added some of the other filter's hashes)
+                kept = sorted(hval(hb, h) for h in exp["S"])
+                missing = [v for v in kept if not qf.check_alt(v)]
+                t.check(not missing, "C04", "C04.added_present_after_rejected_call", ENGINE, lambda: rp(raised=repr(raised), missing=missing), sig)
                 return
             if not isinstance(raised, self.QFE):
                 t.fail("C04", "C04.unexpected_error", ENGINE, rp(raised=repr(raised)), sig)
@@ -336,8 +343,11 @@ def profiles(tier, light=False):
     mD = [([(56, 1), (0, 1)], 3), ([(8, 1), (8, 2), (8, 3)], 5)]
     hvq = dict(q0s=[3], autos=[False], maxq=3, maxel=4, rsz=[], merges=[], histview=True, queries=True)
     # the two setters as operations: fill with growth off, switch it on (the next add grows a table that is already past the limit); lower /
-    # raise the limit (1/2 is an exact boundary, 1/1 lets the table fill completely); every rebuild puts the default limit back
-    sett = dict(univ="I", q0s=[3], autos=[False, True], maxq=4, maxel=7, rsz=[0, 3], merges=[], nparts=2, autoset=["T", "F"], lfs=[(1, 2), (1, 1)])
+    # raise the limit (1/2 is an exact boundary, 1/1 lets the table fill completely, 3/2 is never reached: a full table must reject the next
+    # hash); every rebuild puts the default limit back
+    sett = dict(univ="I", q0s=[3], autos=[False, True], maxq=4, maxel=7, rsz=[0, 3], merges=[], nparts=2, autoset=["T", "F"], lfs=[(1, 2), (1, 1), (3, 2)])
+    # a table filled to the last slot, growth switched on only then, with a limit that lets it fill (1/1) or is never reached (3/2)
+    full = dict(univ="J", q0s=[3], autos=[False, True], maxq=4, maxel=9, rsz=[], merges=[], nparts=3, autoset=["T"], lfs=[(1, 1), (3, 2)])
     if tier == "quick" and light:
         return [
             dict(hvq, univ="G", nparts=1, maxdepth=4),
@@ -354,6 +364,7 @@ def profiles(tier, light=False):
             dict(univ="F", q0s=[24], autos=[False], maxq=24, maxel=2, rsz=[], merges=[], nparts=1),
             dict(hvq, univ="G", nparts=1, maxdepth=5),       # every history of 4 operations + 1, look-ups included
             sett,
+            full,
         ]
     return [
         dict(hvq, univ="H", nparts=1, maxdepth=6),
@@ -365,6 +376,7 @@ def profiles(tier, light=False):
         dict(univ="E", q0s=[16], autos=[False, True], maxq=16, maxel=5, rsz=[16], merges=[], nparts=2),
         dict(univ="F", q0s=[24], autos=[False], maxq=24, maxel=4, rsz=[], merges=[], nparts=2),
         dict(sett, maxq=5, rsz=[0, 3, 4], merges=[([(28, 1), (28, 2), (0, 1), (4, 1), (8, 1)], 3)], nparts=8),
+        dict(full, nparts=6, rsz=[0, 3]),
     ]
 
 
